@@ -68,6 +68,14 @@ func (v *V) Sum(a, b int) int {
 	return a + b
 }
 
+//go:noinline
+func deepPanic(n int) int {
+	if n == 0 {
+		panic("deep in a recursion")
+	}
+	return deepPanic(n-1) + 1
+}
+
 // Panic panics with a payload chosen by kind (C13).
 func (v *V) Panic(ctx context.Context, kind int) (int, error) {
 	v.L.Add("V.Panic", kind)
@@ -112,6 +120,8 @@ func (v *V) Panic(ctx context.Context, kind int) (int, error) {
 			C chan int
 			F func()
 		}{make(chan int), func() {}}) // a payload encoding/json cannot marshal
+	case 14:
+		deepPanic(200) // raised 200 frames below the handler: the stack of the panic is tens of kilobytes
 	}
 	return 0, nil
 }
